@@ -83,6 +83,80 @@ Enc2(tn, v, opt) ==
               IN Size2(Len(body)) \o body
 
 ---------------------------------------------------------------------------
+(* Admissible NON-MINIMAL encodings of the same value (what other writers / newer   *)
+(* schema versions may produce); every reader must decode them to the same value:   *)
+(*   "huge"     every size and count in the 9-byte form                              *)
+(*   "explicit" required fields written even when they hold the default value        *)
+(*   "padmask"  presence bytes for all fields written although they announce nothing *)
+(*              (an empty object as size 1 + zero mask)                              *)
+(*   "tail"     unknown bytes appended to every object / array body (fields added    *)
+(*              by a newer schema version whose presence bits this reader ignores)   *)
+ReModes == {"huge", "explicit", "padmask", "tail"}
+Huge2(l) == <<255, l % 256, (l \div 256) % 256, (l \div 65536) % 256, (l \div 16777216) % 256, 0, 0, 0, 0>>
+SizeM(l, m) == IF m = "huge" THEN Huge2(l) ELSE Size2(l)
+Junk == <<7, 0, 9>>
+
+RECURSIVE Enc2M(_, _, _, _)
+RECURSIVE Pieces2M(_, _, _, _, _)
+RECURSIVE ElemBytes2M(_, _, _, _)
+
+Body2M(pieces, uidx, m) ==
+  LET n == Len(pieces)
+      present == {i \in 1..n : pieces[i].present}
+      lastP == IF present = {} THEN 0 ELSE CHOOSE i \in present : \A j \in present : j <= i
+      last == IF m = "padmask" THEN n ELSE lastP
+      MaskByte(g) ==
+        LET RECURSIVE S(_)
+            S(bit) == IF bit > 7 THEN 0
+                      ELSE (IF (g = 0 /\ bit = 0) THEN (IF uidx > 0 THEN 1 ELSE 0)
+                            ELSE IF 8 * g + bit <= n /\ pieces[8 * g + bit].present THEN Pow2(bit) ELSE 0)
+                           + S(bit + 1)
+        IN S(0)
+      RECURSIVE FieldsOf(_, _)
+      FieldsOf(g, i) == IF i > 8 * g + 7 \/ i > n THEN <<>>
+                        ELSE (IF i >= 1 /\ pieces[i].present THEN pieces[i].b ELSE <<>>) \o FieldsOf(g, i + 1)
+      RECURSIVE Blocks(_)
+      Blocks(g) == IF g > last \div 8 THEN <<>>
+                   ELSE <<MaskByte(g)>> \o (IF g = 0 /\ uidx > 0 THEN SizeM(uidx, m) ELSE <<>>)
+                        \o FieldsOf(g, 8 * g) \o Blocks(g + 1)
+      core == IF last = 0 /\ uidx = 0 /\ m \notin {"padmask", "tail"} THEN <<>> ELSE Blocks(0)
+      \* appended unknown bytes must not be mistaken for a presence byte of known fields:
+      \* they may only follow a body that already holds the presence bytes of all known fields
+      full == (n \div 8) <= (last \div 8)
+  IN IF m = "tail" /\ full THEN core \o Junk ELSE core
+
+SizedM(body, opt, m) == IF body = <<>> THEN (IF opt THEN <<>> ELSE SizeM(0, m)) ELSE SizeM(Len(body), m) \o body
+
+Pieces2M(t, v, i, acc, m) ==
+  IF i > Len(t.fields) THEN acc
+  ELSE LET f == t.fields[i]
+           piece == IF Omitted(f) THEN [present |-> FALSE, b |-> <<>>]
+                    ELSE IF IsOpt(f) THEN
+                           (IF IsP(v[i]) THEN [present |-> TRUE, b |-> IF f.isbit THEN <<>> ELSE Enc2M(f.t, PV(v[i]), FALSE, m)]
+                            ELSE [present |-> FALSE, b |-> <<>>])
+                    ELSE LET e == Enc2M(f.t, v[i], m # "explicit", m) IN [present |-> e # <<>>, b |-> e]
+       IN Pieces2M(t, v, i + 1, Append(acc, piece), m)
+
+ElemBytes2M(t, v, j, m) == IF j > Len(v) THEN <<>> ELSE Enc2M(t.elem.t, v[j], FALSE, m) \o ElemBytes2M(t, v, j + 1, m)
+
+Enc2M(tn, v, opt, m) ==
+  LET t == TY(tn) IN
+  CASE t.k = "prim" ->
+         (CASE t.prim = "string" -> IF opt /\ v = <<>> THEN <<>> ELSE SizeM(Len(v), m) \o v
+            [] OTHER -> Enc2(tn, v, opt))
+    [] t.k = "struct" ->
+         IF t.alias /\ ~t.unionElem THEN Enc2M(t.fields[1].t, v[1], opt, m)
+         ELSE SizedM(Body2M(Pieces2M(t, v, 1, <<>>, m), IF t.unionElem THEN t.uidx ELSE 0, m), opt, m)
+    [] t.k = "union"  ->
+         LET vt == TY(t.variants[v.i]) IN SizedM(Body2M(Pieces2M(vt, v.v, 1, <<>>, m), v.i - 1, m), opt, m)
+    [] t.k \in {"array", "dict"} ->
+         IF Len(v) = 0 THEN (IF opt THEN <<>> ELSE IF m = "tail" THEN SizeM(1 + Len(Junk), m) \o <<0>> \o Junk ELSE SizeM(0, m))
+         ELSE LET body == SizeM(Len(v), m) \o
+                          (IF IsBitElem(t.elem.t) THEN BitsEnc(v) ELSE ElemBytes2M(t, v, 1, m))
+                          \o (IF m = "tail" THEN Junk ELSE <<>>)
+              IN SizeM(Len(body), m) \o body
+
+---------------------------------------------------------------------------
 (* tolerant reader; `lim` = index of the last byte the current object may use *)
 OK2(v, pos) == [ok |-> TRUE, v |-> v, pos |-> pos]
 Err2 == [ok |-> FALSE, v |-> <<>>, pos |-> 0]
